@@ -180,8 +180,27 @@ class Mon:
         self.expand = hostile.wrap(emmet.expand, ctx)
         self.guard_last = None
         self.depth_in = []
+        # ONE settings dictionary kept by the caller and edited between calls (the limit raised, lowered, set to None, removed): the limit in
+        # force is the one the dictionary holds at the time of the call
+        self.kept = {'options': {'output.format': False}}
+        self.kept_history = []
+        self.calls = 0
 
-    def check(self, abbr, expected, truncated, max_repeat, cls, syntax=None, text=None):
+    def kept_config(self, syntax, max_repeat, text):
+        k = self.kept
+        self.kept_history.append([syntax, max_repeat])
+        del self.kept_history[:-3]
+        for key, val in (('syntax', syntax), ('maxRepeat', max_repeat), ('text', text)):
+            if val is not None:
+                k[key] = val
+            elif key in k:
+                if len(self.kept_history) % 2 or key == 'text':
+                    del k[key]
+                else:
+                    k[key] = None       # "None is the same as an absent key"
+        return k
+
+    def check(self, abbr, expected, truncated, max_repeat, cls, syntax=None, text=None, kept_history=None):
         ctx = self.ctx
         ctx.ev(cls)
         cfg = {'options': {'output.format': False}}
@@ -192,6 +211,16 @@ class Mon:
         if text is not None:
             cfg['text'] = text
         case = {'abbr': abbr, 'maxRepeat': max_repeat, 'expected': expected, 'truncated': truncated, 'syntax': syntax, 'text': text}
+        self.calls += 1
+        if kept_history is not None:
+            # replay: the calls that went before on the kept dictionary
+            for sy, m in kept_history[:-1]:
+                core.call(self.expand, 'x-a*4>x-b*3', self.kept_config(sy, m, None))
+        if kept_history is not None or self.calls % 3 == 0:
+            ctx.mon('workload:kept-dictionary-edited-between-calls')
+            cfg = self.kept_config(syntax, max_repeat, text)
+            case['kept_history'] = [list(x) for x in self.kept_history]
+            ctx.state('kept-limit-edit', '%s -> %s' % tuple('none' if len(h) < 2 or h[1] is None else 'M' for h in (self.kept_history[-2:] if len(self.kept_history) > 1 else [[None, None]] + self.kept_history[-1:])))
         self.guard_last = None
         r = core.call(self.expand, abbr, cfg)
         ctx.mon('oracle:copies-and-counters')
@@ -505,7 +534,8 @@ def replay(case, ctx):
         if r[0] == 'exc' or direct_shape(r[1]) != case['expected_shape']:
             ctx.violation('copy-count', case, {'entry': 'emmet.parse_markup_abbreviation'})
         return
-    Mon(ctx).check(case['abbr'], case['expected'], case['truncated'], case['maxRepeat'], 'replay', case.get('syntax'), text=case.get('text'))
+    Mon(ctx).check(case['abbr'], case['expected'], case['truncated'], case['maxRepeat'], 'replay', case.get('syntax'), text=case.get('text'),
+                   kept_history=case.get('kept_history'))
 
 
 CLASSIFIERS = {}
